@@ -391,11 +391,16 @@ func Check(a CheckArgs) int {
 			}
 		}
 		if watchdogConfirmed == 0 {
+			// the runs terminate when re-executed: the expiry was a load artefact, not a finding. The workers'
+			// remaining runs are lost (batch reported as truncated); it is infrastructure trouble only if
+			// every worker was lost that way.
 			for i := 0; i < n; i++ {
 				h := hangs[i].s.Hang
-				fmt.Fprintf(os.Stderr, "INFRA: worker %d watchdog fired at run %d (%s) but re-execution finished in time; not a violation\n", hangs[i].idx, h.Run, h.Reason)
+				fmt.Fprintf(os.Stderr, "note: worker %d watchdog fired at run %d (%s) but re-execution in a fresh process finished in time; not a violation\n", hangs[i].idx, h.Run, h.Reason)
 			}
-			infra = true
+			if len(hangs) >= workers {
+				infra = true
+			}
 		} else if len(hangs) > n {
 			fmt.Fprintf(os.Stderr, "note: %d further workers hit the watchdog; not re-confirmed individually\n", len(hangs)-n)
 		}
